@@ -3,7 +3,7 @@
    the schema algebra, and the model of /repo/json/validator.go (ValidateData)
    and of the processor facade.  NO proofs here (Schema/Theory.v). *)
 From Coq Require Import ZArith QArith List String Ascii Bool NArith.
-From GSP Require Import Base.Prelude Schema.Json Schema.Regex.
+From GSP Require Import Base.Prelude Schema.Json Schema.JsonText Schema.Regex.
 Import ListNotations.
 Open Scope list_scope.
 Open Scope string_scope.
@@ -784,3 +784,34 @@ Fixpoint run_history (calls : list (option json * option json)) : list (res unit
    configured validator, or fails when none is configured *)
 Definition processor_validate_data (has_validator : bool) (data schema : option json) : res unit :=
   if has_validator then validate_data data schema else Err "validator-not-defined".
+
+(* ------------------------------------------------------------------ *)
+(* 7. the wrapper on TEXT: both inputs pass the JSON well-formedness gate
+      (json.Valid(schema); json.Unmarshal(data)) modelled by Schema/JsonText.v *)
+Definition validate_text (data schema : string) : res unit :=
+  validate_data (parse_json data) (parse_json schema).
+
+(* the Processor facade over OPTIONAL components, for any representation of the inputs:
+   the configured validator's verdict on the SAME data and schema, or the
+   not-defined error *)
+Definition processor_validate {D S : Type} (validator : option (D -> S -> res unit)) (data : D) (schema : S) : res unit :=
+  match validator with
+  | Some v => v data schema
+  | None => Err "validator-not-defined"
+  end.
+
+Definition processor_validate_text (has_validator : bool) (data schema : string) : res unit :=
+  processor_validate (if has_validator then Some validate_text else None) data schema.
+
+(* seeded variants of the facade (refuted in Schema/TextGlue.v):
+   re-encoding the schema before the call; answering Ok without a validator *)
+Definition processor_reencoding {D S : Type} (reenc : S -> S) (validator : option (D -> S -> res unit)) (data : D) (schema : S) : res unit :=
+  match validator with
+  | Some v => v data (reenc schema)
+  | None => Err "validator-not-defined"
+  end.
+Definition processor_lenient {D S : Type} (validator : option (D -> S -> res unit)) (data : D) (schema : S) : res unit :=
+  match validator with
+  | Some v => v data schema
+  | None => Ok tt
+  end.
